@@ -4,7 +4,9 @@ from fractions import Fraction as F
 from scen import *
 
 INPUTS = [('key', key(0), dict(keys=[0])), ('ctrl-key', key(1, CONTROL), dict(keys=[1, 102])), ('mbutton', mbutton(0), dict(mbuttons=[0])),
-          ('pbutton', pbutton(0), dict(pads=[(0, [0], [])])), ('paxis', paxis(0), dict(pads=[(0, [], [(0, F(1, 2))])])), ('motion', motion(), dict(motion=(F(1), F(0))))]
+          ('pbutton', pbutton(0), dict(pads=[(0, [0], [])])), ('paxis', paxis(0), dict(pads=[(0, [], [(0, F(1, 2))])])), ('motion', motion(), dict(motion=(F(1), F(0)))),
+          # analog inputs resting at a small non-zero value: active ("held") although below every actuation threshold
+          ('paxis-low', paxis(1), dict(pads=[(0, [], [(1, F(1, 4))])])), ('paxis-neg', paxis(2), dict(pads=[(0, [], [(2, F(-1, 4))])]))]
 
 def mkraw(active, ui=()):
     keys, mbs, pads_b, pads_a, mo = [], [], [], [], (F(0), F(0))
@@ -99,7 +101,7 @@ def nontrivial(case, out):
 
 STAGES = [dict(name='suppression', mode='app', coq='Check.C08w', cases=cases, nontrivial=nontrivial, shard=25,
                exhaustive={'thorough': True, 'quick': True},
-               rule='a context with one probed binding per input kind (key, Ctrl+key, mouse button, gamepad button, gamepad axis, mouse motion) is inserted (directly or through Commands) or rebuilt while a '
+               rule='a context with one probed binding per input kind (key, Ctrl+key, mouse button, gamepad button, gamepad axis at 1/2, mouse motion, gamepad axes resting at 1/4 and -1/4) is inserted (directly or through Commands) or rebuilt while a '
                     'chosen subset of its inputs is held; then every press/release pattern of length 3 (quick) / 4 (thorough) per input; Ctrl+K with the key or the modifier pressed first; an existing '
                     'consuming context on the same inputs above or below the new one whose scripted state goes Fired, Ongoing and None while the input stays down; UI hover over a held mouse button; random mixes. '
                     'non-trivial = some binding gets driven; distinct = distinct scenario text')]
